@@ -94,6 +94,9 @@ func buildWriter(o Opts, f ply.Format) (ply.MeshWriter, error) {
 
 const callDeadline = 8 * time.Second
 
+// MaxTimeouts: see RunCases.
+const MaxTimeouts = 6
+
 // timedOut is set when a call into the library exceeded its deadline: its
 // goroutine may still be spinning, so RunCases continues in a fresh process.
 var timedOut bool
@@ -331,8 +334,12 @@ func runFile(enc *json.Encoder, c Case) error {
 
 // RunCases executes the cases of `in` (ndjson) and writes the trace to `out`.
 // skip > 0: the first `skip` cases were already executed by a previous process
-// image (see timedOut) and `out` is appended to.
-func RunCases(in, out, dumpDir string, skip int) error {
+// image (see timedOut) and `out` is appended to. timeouts is the number of
+// cases that hit the deadline so far: after MaxTimeouts of them the run stops at
+// a case boundary and leaves the marker file out+".aborted" (every one of these
+// cases is in the trace with its TIMEOUT observation; hanging code would
+// otherwise cost the deadline once per remaining case).
+func RunCases(in, out, dumpDir string, skip, timeouts int) error {
 	fi, err := os.Open(in)
 	if err != nil {
 		return err
@@ -392,7 +399,11 @@ func RunCases(in, out, dumpDir string, skip int) error {
 				return err
 			}
 			fo.Close()
-			args := []string{os.Args[0], "ply-exec", "-in", in, "-out", out, "-skip", strconv.Itoa(n)}
+			timeouts++
+			if timeouts >= MaxTimeouts {
+				return os.WriteFile(out+".aborted", []byte(strconv.Itoa(n)+" cases executed, "+strconv.Itoa(timeouts)+" hit the deadline\n"), 0o644)
+			}
+			args := []string{os.Args[0], "ply-exec", "-in", in, "-out", out, "-skip", strconv.Itoa(n), "-timeouts", strconv.Itoa(timeouts)}
 			if dumpDir != "" {
 				args = append(args, "-dump", dumpDir)
 			}
